@@ -1,0 +1,7 @@
+//go:build verif
+
+package repl
+
+// VerifMultiLine exposes the REPL's own "keep reading lines" classification to the
+// verification harness (build tag verif only).
+func VerifMultiLine(err error) bool { return multiLine(err) }
